@@ -16,22 +16,28 @@ import (
 )
 
 type verifTwoKinds struct {
-	w     *env.World
-	pc    *verifPC
-	order []string // hook order of the four children
+	stanza bool // desired children carry an empty status stanza; nobody writes child status
+	w      *env.World
+	pc     *verifPC
+	order  []string // hook order of the four children
 }
 
 func verifTwoKindsIsWidget(n string) bool { return n[0] == 'w' }
 
 func (t *verifTwoKinds) mk(n, x string) *unstructured.Unstructured {
+	var o *unstructured.Unstructured
 	if verifTwoKindsIsWidget(n) {
-		o := env.Obj("apps.ex.com/v1", "Widget", "ns", n, "")
+		o = env.Obj("apps.ex.com/v1", "Widget", "ns", n, "")
 		o.Object["spec"] = map[string]interface{}{"k": x}
-		env.SetLabel(o, "app", "x")
-		return o
+	} else {
+		o = env.ConfigMap("ns", n, "", x)
 	}
-	o := env.ConfigMap("ns", n, "", x)
 	env.SetLabel(o, "app", "x")
+	if t.stanza {
+		// what hooks written with typed structs emit; the API server drops it on
+		// create for kinds with a status subresource (Widget), keeps it otherwise
+		o.Object["status"] = map[string]interface{}{}
+	}
 	return o
 }
 
@@ -55,6 +61,9 @@ func (t *verifTwoKinds) value(n string) (string, bool) {
 }
 
 func (t *verifTwoKinds) markHealthy() {
+	if t.stanza {
+		return
+	}
 	for _, res := range []string{"configmaps", "widgets"} {
 		for _, o := range t.w.Srv.All(res) {
 			o.Object["status"] = map[string]interface{}{"observedGeneration": o.GetGeneration()}
@@ -138,11 +147,17 @@ func VerifC07_TwoKinds() {
 	}}
 	// the declaration order of the child resources is independent of the hook order
 	rules := []verifChildRule{{Res: env.ConfigMapRes, Strategy: verifStrategyOf(mA)}, {Res: env.WidgetRes, Strategy: verifStrategyOf(mW)}}
-	if rt.Bool("widgets-declared-first") {
+	declaredFirst := rt.Bool("widgets-declared-first")
+	if declaredFirst {
 		rules[0], rules[1] = rules[1], rules[0]
 	}
 	t.pc = verifNewPC(t.w, verifPCConfig{ParentRes: env.ThingRes, Children: rules, Sync: hook})
 
+	// (explored for the interleaved hook order and the default declaration order only)
+	if len(t.order) == 4 && t.order[1] == "w1" && !declaredFirst && rt.Bool("desired-children-carry-a-status-stanza-and-nobody-writes-child-status") {
+		rt.Cover("twokinds/status-stanza")
+		t.stanza = true
+	}
 	// the order of the kind groups inside a ControllerRevision comes from ranging
 	// over a Go map: explore insertion order and its reverse
 	if rt.Bool("maps-reversed") {
